@@ -145,6 +145,11 @@ func check(sc *Script, m *model, ob *obs) []violation {
 			_, ok := firedAt(func(o int) map[string]bool { return m.Fates[o].DivCutsPre })
 			for o := L; o < sc.N; o++ {
 				ok = ok || m.Fates[o].FlagPartPre
+				for _, k := range w.fired {
+					if originOfKey(k) <= o && m.Fates[o].MixedPre[procOfKey(k)] {
+						ok = true
+					}
+				}
 			}
 			if !ok || !sc.fanout() {
 				add("unexpected-error/split-run-straddles-fanout/"+topo,
